@@ -5,7 +5,8 @@
 (* point of that function (C05).                                            *)
 (*                                                                          *)
 (* One run of the CLI, following generator/__main__.py:main, is             *)
-(*   ParseArgs -> ValidateModel(i) for EVERY model file -> CreateModel ->   *)
+(*   ParseArgs -> ValidateNext for EVERY model file in order -> CreateModel *)
+(*   ->                                                                     *)
 (*   ImportPlugin -> Cleanup (plugins that own a set of files) -> Write     *)
 (* and ends in Done or Failed.  The environment may PlaceStale files into   *)
 (* an output directory between runs.  The design-level part (variables      *)
@@ -24,6 +25,7 @@ EXTENDS Naturals, Sequences, FiniteSets, TLC, Json, IOUtils
 
 CONSTANTS MaxLen,       \* generation: bound on the history length
           NoCleanup,    \* design sanity: drop the Cleanup action
+          LastOnly,     \* design sanity: validate only the last model file (the slip of a dedented loop body)
           NEvents       \* trace mode: number of recorded events
 
 Plugins == {"python", "rust", "dotnet", "testdata"}
@@ -39,9 +41,10 @@ VARIABLES svPlugin,   \* the plugin this behaviour is about
           svFs,       \* set of [name, content] in the owned part of the output directory
           svPhase,    \* "idle" | "validated" | "modelled" | "imported" | "cleaned" | "failed"
           svModel,    \* model of the current run
-          svValid,    \* does the current run's model pass validation
+          svValid,    \* per model file of the current run: does it pass schema validation
+          svVi,       \* number of model files validated so far
           svHist      \* history so far (sequence of action records)
-dvars == <<svPlugin, svFs, svPhase, svModel, svValid, svHist>>
+dvars == <<svPlugin, svFs, svPhase, svModel, svValid, svVi, svHist>>
 
 \* the abstract image: model A yields files {f1, f2}, model B yields {f1, f3} with other content
 GenFiles(p, m) == IF p \in SetOwners
@@ -50,31 +53,42 @@ GenFiles(p, m) == IF p \in SetOwners
                         ELSE {[name |-> "f1", content |-> "C"], [name |-> "f2", content |-> "C"], [name |-> "f4", content |-> "C"]})
                   ELSE {[name |-> "main", content |-> m]}
 
-DInit == /\ svPlugin \in Plugins /\ svFs = {} /\ svPhase = "idle" /\ svModel = "A" /\ svValid = TRUE /\ svHist = <<>>
+DInit == /\ svPlugin \in Plugins /\ svFs = {} /\ svPhase = "idle" /\ svModel = "A" /\ svValid = <<TRUE>> /\ svVi = 0 /\ svHist = <<>>
+\* a run is given one model file, or (model C) a list of two; any of them may violate the schema
+FileValidity(m, valid) == IF m = "C" THEN {<<a, b>> : a, b \in BOOLEAN} \cap {v \in {<<a, b>> : a, b \in BOOLEAN} : (v[1] /\ v[2]) = valid}
+                          ELSE {<<valid>>}
+AllValid(v) == \A i \in DOMAIN v : v[i]
 
 Start(m, valid, seed) ==
     /\ svPhase \in {"idle", "failed"} /\ Len(svHist) < MaxLen
-    /\ svModel' = m /\ svValid' = valid
-    /\ svPhase' = IF valid THEN "validated" ELSE "failed"        \* jsonschema.validate raises before anything else
+    /\ svModel' = m /\ svValid' \in FileValidity(m, valid) /\ svVi' = 0
+    /\ svPhase' = "validating"
     /\ svHist' = Append(svHist, [a |-> "Run", model |-> m, seed |-> seed, valid |-> valid])
     /\ UNCHANGED <<svPlugin, svFs>>
-CreateModel == svPhase = "validated" /\ svPhase' = "modelled" /\ UNCHANGED <<svPlugin, svFs, svModel, svValid, svHist>>
-ImportPlugin == svPhase = "modelled" /\ svPhase' = "imported" /\ UNCHANGED <<svPlugin, svFs, svModel, svValid, svHist>>
+\* main(): for model_file in model_files: json.load; jsonschema.validate  (raises on the first invalid file)
+ValidateNext ==
+    /\ svPhase = "validating" /\ svVi < Len(svValid)
+    /\ LET i == svVi + 1  checked == ~LastOnly \/ i = Len(svValid) IN
+       IF checked /\ ~svValid[i] THEN svPhase' = "failed" /\ svVi' = svVi
+       ELSE svVi' = i /\ svPhase' = (IF i = Len(svValid) THEN "validated" ELSE "validating")
+    /\ UNCHANGED <<svPlugin, svFs, svModel, svValid, svHist>>
+CreateModel == svPhase = "validated" /\ svPhase' = "modelled" /\ UNCHANGED <<svPlugin, svFs, svModel, svValid, svVi, svHist>>
+ImportPlugin == svPhase = "modelled" /\ svPhase' = "imported" /\ UNCHANGED <<svPlugin, svFs, svModel, svValid, svVi, svHist>>
 Cleanup == /\ svPhase = "imported" /\ ~NoCleanup
            /\ svFs' = IF svPlugin \in SetOwners THEN {} ELSE svFs
            /\ svPhase' = "cleaned"
-           /\ UNCHANGED <<svPlugin, svModel, svValid, svHist>>
+           /\ UNCHANGED <<svPlugin, svModel, svValid, svVi, svHist>>
 Write == /\ svPhase = (IF NoCleanup THEN "imported" ELSE "cleaned")
          /\ svFs' = {f \in svFs : \A g \in GenFiles(svPlugin, svModel) : g.name # f.name} \cup GenFiles(svPlugin, svModel)
          /\ svPhase' = "idle"
-         /\ UNCHANGED <<svPlugin, svModel, svValid, svHist>>
+         /\ UNCHANGED <<svPlugin, svModel, svValid, svVi, svHist>>
 PlaceStale == /\ svPhase = "idle" /\ Len(svHist) < MaxLen
               /\ svFs' = svFs \cup {[name |-> IF svPlugin \in SetOwners THEN "stale" ELSE "main", content |-> "stale"]}
               /\ svFs' # svFs
               /\ svHist' = Append(svHist, [a |-> "Stale"])
-              /\ UNCHANGED <<svPlugin, svPhase, svModel, svValid>>
+              /\ UNCHANGED <<svPlugin, svPhase, svModel, svValid, svVi>>
 DNext == \/ \E m \in Models, v \in BOOLEAN, s \in Seeds : Start(m, v, s)
-         \/ CreateModel \/ ImportPlugin \/ Cleanup \/ Write \/ PlaceStale
+         \/ ValidateNext \/ CreateModel \/ ImportPlugin \/ Cleanup \/ Write \/ PlaceStale
 
 \* after a completed run the owned files are exactly the image of the model
 LastRun == LET idx == {i \in DOMAIN svHist : svHist[i].a = "Run"} IN
@@ -83,7 +97,7 @@ OutputIsFunctionOfModel ==
     (svPhase = "idle" /\ LastRun # 0 /\ LastRun = Len(svHist) /\ svHist[LastRun].valid)
         => svFs = GenFiles(svPlugin, svHist[LastRun].model)
 InvalidWritesNothing == svPhase = "failed" => TRUE      \* by construction no action is enabled that writes; see PhaseOrder
-PhaseOrder == svPhase \in {"imported", "cleaned"} => svValid
+PhaseOrder == svPhase \in {"modelled", "imported", "cleaned"} => AllValid(svValid)
 EmitHistory == IF svPhase \in {"idle", "failed"} /\ Len(svHist) = MaxLen
                THEN PrintT("@H " \o ToJson([plugin |-> svPlugin, hist |-> svHist])) ELSE TRUE
 HistView == <<svPlugin, svHist, svPhase>>
@@ -103,7 +117,7 @@ Key(ev) == ev.plugin \o "/" \o ev.model
 GInit == DInit /\ svR = 0 /\ svL = 0 /\ svGen = <<>> /\ svN = 0
 GNext == DNext /\ UNCHANGED tvars
 TInit == /\ svR = 1 /\ svL = 1 /\ svGen = [k \in {} |-> ""] /\ svN = 0
-         /\ svPlugin = "" /\ svFs = {} /\ svPhase = "" /\ svModel = "" /\ svValid = TRUE /\ svHist = <<>>
+         /\ svPlugin = "" /\ svFs = {} /\ svPhase = "" /\ svModel = "" /\ svValid = <<TRUE>> /\ svVi = 0 /\ svHist = <<>>
 
 FirstDiff(a, b) == IF \E i \in DOMAIN a : i \notin DOMAIN b \/ a[i] # b[i]
                    THEN CHOOSE i \in DOMAIN a : (i \notin DOMAIN b \/ a[i] # b[i]) /\ \A k \in 1..(i - 1) : k \in DOMAIN b /\ a[k] = b[k]
@@ -133,6 +147,6 @@ TStep == /\ svR <= Len(Runs)
                /\ IF svL < Len(run) THEN svL' = svL + 1 /\ svR' = svR ELSE svL' = 1 /\ svR' = svR + 1
          /\ svN' = svN + 1
          /\ TLCSet(1, svN + 1)
-         /\ UNCHANGED <<svPlugin, svFs, svPhase, svModel, svValid, svHist>>
+         /\ UNCHANGED <<svPlugin, svFs, svPhase, svModel, svValid, svVi, svHist>>
 AllConsumed == TLCGet(1) = NEvents /\ PrintT("@DONE " \o ToString(TLCGet(1)))
 =============================================================================
